@@ -166,7 +166,7 @@ pub fn gated_case(p: &Profile) -> BoxedStrategy<Case> {
         let _ = first_free;
         callers.extend(free_callers);
         let must: Vec<u8> = (k as u8..objects).collect();
-        let cfg = Cfg { pool, objects, gates, streams: 0, level: Level::Desync, unlock_points, spurious: vec![], pre_open: vec![], root_holds: true, double_wake: false };
+        let cfg = Cfg { pool, objects, gates, streams: 0, level: Level::Desync, unlock_points, spurious: vec![], pre_open: vec![], root_holds: true, double_wake: false, gate_keep_all: false };
         let phase0 = Phase { callers, must_finish_objs: if k > 0 { must } else { vec![] }, ..Default::default() };
         Case { cfg, phases: vec![phase0], sched }
     })
@@ -243,7 +243,7 @@ pub fn panic_case(p: &Profile) -> BoxedStrategy<Case> {
             };
             ph2.push(vec![Op::Attempt { o: 0, kind, id: 0 }]);
         }
-        let cfg = Cfg { pool, objects, gates: 1, streams: 0, level: Level::Desync, unlock_points, spurious: vec![], pre_open: vec![], root_holds: true, double_wake: false };
+        let cfg = Cfg { pool, objects, gates: 1, streams: 0, level: Level::Desync, unlock_points, spurious: vec![], pre_open: vec![], root_holds: true, double_wake: false, gate_keep_all: false };
         let phase0 = Phase { callers, expect_panicked: vec![0], ..Default::default() };
         let phase1 = Phase { callers: ph2, capacity_probe: true, ..Default::default() };
         Case { cfg, phases: vec![phase0, phase1], sched }
